@@ -133,6 +133,31 @@ EventOK(e) ==
             ~N(e.rd).neg /\ ~IsZero(N(e.rd)) /\ e.gcd1
       [] e.ev = "fcmp" -> \* sign of n1*d2 - n2*d1 (denominators positive)
             e.r = Cmp(Mul(N(e.n1), N(e.d2)), Mul(N(e.n2), N(e.d1)))
+      \* a ** k: n1^k / d1^k for k >= 0, d1^|k| / n1^|k| for k < 0 (n1 # 0)
+      [] e.ev = "fpow" -> IF e.k >= 0
+                            THEN Eq(Mul(N(e.rn), PowN(N(e.d1), e.k)), Mul(PowN(N(e.n1), e.k), N(e.rd)))
+                            ELSE ~IsZero(N(e.n1)) /\ Eq(Mul(N(e.rn), PowN(N(e.n1), -e.k)), Mul(PowN(N(e.d1), -e.k), N(e.rd)))
+      [] e.ev = "fneg" -> Eq(N(e.rn), Neg(N(e.n1))) /\ Eq(N(e.rd), N(e.d1))
+      [] e.ev = "fabs" -> Eq(N(e.rn), Abs(N(e.n1))) /\ Eq(N(e.rd), N(e.d1))
+      [] e.ev = "fsign" -> e.r = Cmp(N(e.n1), Zero)                            \* d1 > 0 (fnorm)
+      [] e.ev = "feq" -> e.r = Eq(Mul(N(e.n1), N(e.d2)), Mul(N(e.n2), N(e.d1)))
+      \* floor: r * d1 <= n1 < (r + 1) * d1; ceil: (r - 1) * d1 < n1 <= r * d1   (d1 > 0)
+      [] e.ev = "ffloor" -> /\ Cmp(Mul(N(e.r), N(e.d1)), N(e.n1)) <= 0
+                            /\ Cmp(N(e.n1), Mul(Add(N(e.r), Small(1)), N(e.d1))) < 0
+      [] e.ev = "fceil" -> /\ Cmp(N(e.n1), Mul(N(e.r), N(e.d1))) <= 0
+                           /\ Cmp(Mul(Sub(N(e.r), Small(1)), N(e.d1)), N(e.n1)) < 0
+      \* trunc: towards zero
+      [] e.ev = "ftrunc" -> IF N(e.n1).neg
+                              THEN /\ Cmp(N(e.n1), Mul(N(e.r), N(e.d1))) <= 0
+                                   /\ Cmp(Mul(Sub(N(e.r), Small(1)), N(e.d1)), N(e.n1)) < 0
+                              ELSE /\ Cmp(Mul(N(e.r), N(e.d1)), N(e.n1)) <= 0
+                                   /\ Cmp(N(e.n1), Mul(Add(N(e.r), Small(1)), N(e.d1))) < 0
+      \* a % b = a - q * b with q = floor(a / b) (q checked by its own ffloor event):
+      \* rn/rd = n1/d1 - q*n2/d2   <=>   rn*d1*d2 = (n1*d2 - q*n2*d1)*rd ; the result has the sign of b and is smaller
+      [] e.ev = "fmod" -> /\ Eq(Mul(N(e.rn), Mul(N(e.d1), N(e.d2))),
+                                Mul(Sub(Mul(N(e.n1), N(e.d2)), Mul(N(e.q), Mul(N(e.n2), N(e.d1)))), N(e.rd)))
+                          /\ (IsZero(N(e.rn)) \/ N(e.rn).neg = N(e.n2).neg)
+                          /\ CmpMag(Mul(N(e.rn), N(e.d2)).mag, Mul(N(e.n2), N(e.rd)).mag) < 0
       [] OTHER -> FALSE
 
 Init == l = 1
